@@ -117,3 +117,83 @@ def m_duration_from_secs_f(ctx, args, callee):
 def m_human_time(ctx, args, callee):
     from .models_fmt import OpaqueStr
     return OpaqueStr('human_time(%r)' % (ctx.deref(args[0]),))
+
+
+# ------------------------------------------------------------------------------------------------ static regexes, concrete subjects
+def static_regex_text(ctx, name):
+    """the pattern literal of `static NAME: LazyLock<Regex> = LazyLock::new(|| { Regex::new("...") ... })`, read from the tree's sources"""
+    import os
+    cache = ctx.prog.__dict__.setdefault('_static_regex', {})
+    short = name.rsplit('::', 1)[-1]
+    if short not in cache:
+        cache[short] = None
+        root = ctx.prog.src_root if hasattr(ctx.prog, 'src_root') else None
+        roots = [root] if root else []
+        for r in roots:
+            for dp, dn, fn in os.walk(os.path.join(r, 'src')):
+                for f in fn:
+                    if f.endswith('.rs'):
+                        t = open(os.path.join(dp, f), encoding='utf-8', errors='replace').read()
+                        m = re.search(r'static\s+' + re.escape(short) + r'\s*:\s*LazyLock<\s*Regex\s*>\s*=\s*LazyLock::new\(\|\|\s*\{?\s*Regex::new\(\s*(r#*)?"((?:[^"\\]|\\.)*)"', t, re.S)
+                        if m:
+                            raw = m.group(2)
+                            cache[short] = raw if m.group(1) else bytes(raw, 'utf-8').decode('unicode_escape')
+    return cache[short]
+
+
+def rust_regex_to_py(p):
+    m = re.match(r'^\^\(\?([a-zA-Z]+)\)', p)
+    if m:
+        return '(?%s)^' % m.group(1) + p[m.end():]
+    return p
+
+
+@model(r'^<LazyLock<regex::Regex> as Deref>::deref$|^<LazyLock<Regex> as Deref>::deref$', 'regex:static LazyLock<Regex> (pattern text read from the source)')
+def m_lazy_regex(ctx, args, callee):
+    st = ctx.deref(args[0])
+    name = st[1] if isinstance(st, tuple) else None
+    txt = static_regex_text(ctx, name) if name else None
+    if txt is None:
+        raise Unmodelled('static regex %r: pattern text not found' % (name,))
+    return Ref(Cell(RegexV(Str(txt))))
+
+
+@model(r'^regex::Regex::captures$|^Regex::captures$', 'regex:captures on a concrete pattern and subject (Python re as the engine)')
+def m_regex_captures(ctx, args, callee):
+    rx = ctx.deref(args[0]); sub = as_str(ctx, args[1])
+    if rx.pat.s is None or sub.s is None or type(sub) is not Str:
+        raise Unmodelled('captures on symbolic text')
+    try:
+        mm = re.search(rust_regex_to_py(rx.pat.s), sub.s)
+    except re.error as e:
+        raise Unmodelled('python re cannot take the pattern: %s' % e)
+    return some(('pycap', mm)) if mm else none()
+
+
+@model(r"^<regex::Captures<'_> as (std::ops::)?Index<usize>>::index$", 'regex:Captures[i]')
+def m_cap_index(ctx, args, callee):
+    c = ctx.deref(args[0])
+    if not (isinstance(c, tuple) and c[0] == 'pycap'):
+        raise Unmodelled('Captures[i] on %r' % (c,))
+    g = c[1].group(conc(args[1]))
+    if g is None:
+        from .core import Panic
+        raise Panic('no group at index %d' % conc(args[1]))
+    return Str(g)
+
+
+@model(r'^regex::Captures::get$', 'regex:Captures::get')
+def m_cap_get(ctx, args, callee):
+    c = ctx.deref(args[0])
+    if not (isinstance(c, tuple) and c[0] == 'pycap'):
+        raise Unmodelled('Captures::get on %r' % (c,))
+    g = c[1].group(conc(args[1]))
+    return none() if g is None else some(('pymatch', g))
+
+
+@model(r'^regex::Match::as_str$', 'regex:Match::as_str')
+def m_match_as_str(ctx, args, callee):
+    m_ = ctx.deref(args[0])
+    if not (isinstance(m_, tuple) and m_[0] == 'pymatch'):
+        raise Unmodelled('Match::as_str on %r' % (m_,))
+    return Str(m_[1])
